@@ -247,14 +247,16 @@ def audit_theorems(pid, module, theorems):
         except Exception:
             pass
     result = {t: {"ok": False, "axioms": [], "why": "not checked"} for t in theorems}
-    rc, logtxt = lake_build([module])
+    modules = module if isinstance(module, list) else [module]
+    rc, logtxt = lake_build(modules)
     if rc != 0:
         for t in theorems:
-            result[t]["why"] = "lake build " + module + " failed"
+            result[t]["why"] = "lake build " + " ".join(modules) + " failed"
         return result, logtxt[-4000:]
     src = os.path.join(WORK, "audit", f"Audit_{pid}.lean")
     with open(src, "w") as f:
-        f.write(f"import {module}\n")
+        for mod in modules:
+            f.write(f"import {mod}\n")
         for t in theorems:
             f.write(f"#print axioms {t}\n")
     with Lock("lake"):
@@ -523,8 +525,9 @@ def check(pid, tier, seed):
         if tier == "thorough" and not thm_failures:
             # independent re-check of the compiled proof terms by the toolchain's own checker
             with Lock("lake"):
-                rc_lc, out_lc, err_lc = sh(["lake", "env", "leanchecker", module], cwd=LEAN, check=False,
-                                           timeout=3600)
+                rc_lc, out_lc, err_lc = sh(["lake", "env", "leanchecker"] +
+                                           (module if isinstance(module, list) else [module]),
+                                           cwd=LEAN, check=False, timeout=3600)
             coverage["leanchecker"] = "ok" if rc_lc == 0 else (out_lc + err_lc)[-500:]
             if rc_lc != 0:
                 thm_failures.append(("<leanchecker>", f"leanchecker rejected {module}"))
@@ -535,8 +538,16 @@ def check(pid, tier, seed):
     # --- 2. correspondence -------------------------------------------------------------------
     bin_path = build_harness(pid)
     corr = None
+    corrs = []   # (protocol property, its harness binary, correspondence result)
     if reg.get("protocol", "line") == "line":
         corr = correspondence(pid, reg, tier, seed, bin_path)
+        corrs.append((pid, bin_path, corr))
+    # clauses of this property that are carried by another property's model and correspondence
+    # (e.g. C16's "decompositions on degenerate input" by C08's): run those streams too and
+    # report their disagreements as violations of this property
+    for q in reg.get("also_correspond", []):
+        bq = build_harness(q)
+        corrs.append((q, bq, correspondence(q, load_registry(q), tier, seed, bq)))
 
     # --- 2b. extra per-property steps ---------------------------------------------------------
     extra_result = None
@@ -553,16 +564,17 @@ def check(pid, tier, seed):
     # --- 3. verdict --------------------------------------------------------------------------
     known = load_known(pid)
     samples = []
-    if corr is not None:
-        ops = corr["ops_list"]
+    for proto, proto_bin, corr_i in corrs:
+        ops = corr_i["ops_list"]
         # concrete failing inputs (obs / crash) are reported before aux-only disagreements
-        corr["mismatches"].sort(key=lambda m: (0 if m["kind"] in ("obs", "crash") else 1, m["line"]))
-        for m in corr["mismatches"]:
+        corr_i["mismatches"].sort(key=lambda m: (0 if m["kind"] in ("obs", "crash") else 1, m["line"]))
+        reported_here = 0
+        for m in corr_i["mismatches"]:
             k = m["line"]
             s = segment_of(ops, k)
             seg = ops[s:k + 1]
             try:
-                seg_min = shrink_case(bin_path, pid, seg, m["kind"]) if len(seg) > 2 else seg
+                seg_min = shrink_case(proto_bin, proto, seg, m["kind"]) if len(seg) > 2 else seg
             except Exception as e:  # shrinking is best effort
                 seg_min = seg
             case_text = " ; ".join(seg_min)
@@ -575,7 +587,9 @@ def check(pid, tier, seed):
                 known_lines.append(f"KNOWN-FINDING: property={pid} {matched['what']}")
                 continue
             replay_n += 1
-            payload = {"property": pid, "kind": m["kind"], "seed": seed, "tier": tier, "ops": seg_min,
+            reported_here += 1
+            payload = {"property": pid, "protocol_property": proto, "kind": m["kind"], "seed": seed,
+                       "tier": tier, "ops": seg_min,
                        "ops_unshrunk": seg if len(seg) < 200 else seg[-200:],
                        "implementation_answer": m["impl"], "model_answer": m["model"],
                        "replay_cmd": f"python3 verif.py replay replay/{pid}-{replay_n}.json"}
@@ -591,17 +605,20 @@ def check(pid, tier, seed):
                     "The implementation agrees with the specification-level answer but not with the "
                     "code-shaped detail of the model (after `##`): the correspondence stream no longer "
                     "checks, so the theorems no longer speak about this code; no failing input found.")
-                payload["broken"] = f"correspondence stream {pid}, first differing operation shown"
+                payload["broken"] = f"correspondence stream {proto}, first differing operation shown"
                 path = write_replay(pid, replay_n, payload)
                 violations.append(f"VIOLATION property={pid} replay={path} no-failing-input-found")
-            if replay_n >= 5:
+            if reported_here >= 5:
                 break
+        n_s = 0
         for i in range(min(len(ops), 400)):
-            if len(samples) >= 6:
+            if n_s >= (6 if proto == pid else 2):
                 break
-            if i % 67 == 0 or ops[i].startswith("@") and len(samples) < 2:
-                samples.append({"op": ops[i], "implementation": corr["impl"][i] if i < len(corr["impl"]) else None,
-                                "model": corr["model"][i]})
+            if i % 67 == 0 or ops[i].startswith("@") and n_s < 2:
+                n_s += 1
+                samples.append({"op": ops[i], "protocol": proto,
+                                "implementation": corr_i["impl"][i] if i < len(corr_i["impl"]) else None,
+                                "model": corr_i["model"][i]})
 
     if extra_result:
         for v in extra_result.get("violations", []):
@@ -652,6 +669,14 @@ def check(pid, tier, seed):
         coverage["answer_kinds"] = corr.get("answer_kinds", {})
         coverage["corpus_lines_run_first"] = corr["corpus_lines"]
         coverage["rule"] = reg.get("rule", "")
+    for proto, _b, corr_i in corrs:
+        if proto != pid:
+            for k in ("evaluations", "traces_validated_against_impl", "programs"):
+                coverage[k] = coverage.get(k, 0) + (corr_i["ops"] if k == "evaluations" else corr_i["segments"])
+            coverage["distinct_nontrivial"] = coverage.get("distinct_nontrivial", 0) + corr_i.get("distinct", 0)
+            coverage["disagreements_checked"] = coverage.get("disagreements_checked", 0) + len(corr_i["mismatches"])
+            coverage.setdefault("also_corresponded", {})[proto] = {
+                "operations": corr_i["ops"], "cases": corr_i["segments"], "mismatches": len(corr_i["mismatches"])}
     if extra_result:
         for k, v in extra_result.get("coverage", {}).items():
             if k in ("evaluations", "distinct_nontrivial", "traces_validated_against_impl", "programs",
@@ -692,9 +717,10 @@ def replay(path):
             log(out + err)
             return rc
         return 0
-    bin_path = build_harness(pid)
+    proto = payload.get("protocol_property", pid)
+    bin_path = build_harness(proto)
     lake_build(["emlmodel"])
-    rc, il, ml = rerun_pair(bin_path, pid, payload["ops"], "replay")
+    rc, il, ml = rerun_pair(bin_path, proto, payload["ops"], "replay")
     bad = 0
     for i, op in enumerate(payload["ops"]):
         a = il[i] if i < len(il) else f"<process died rc={rc}>"
